@@ -293,7 +293,12 @@ func (g *jsonGen) object(depth int) {
 		}
 		// name
 		start := len(g.b)
-		if s.Chance(3, 4) && !g.cfg.CollideNames {
+		if s.Chance(1, 12) {
+			// names that need RFC 6901 escaping in pointers
+			g.b = append(g.b, []string{`"a/b"`, `"m~n"`, `"~0"`, `"~1/"`, `"/"`, `"~"`}[s.Draw(6)]...)
+			g.b = strconv.AppendInt(g.b[:len(g.b)-1], int64(i), 10)
+			g.b = append(g.b, '"')
+		} else if s.Chance(3, 4) && !g.cfg.CollideNames {
 			g.b = append(g.b, '"')
 			g.b = append(g.b, 'k')
 			g.b = strconv.AppendInt(g.b, int64(i), 10)
